@@ -21,7 +21,8 @@
 (*      lattice polygon with <= MaxV vertices on the G x G grid up to       *)
 (*      translation, collinear runs included.  The other families are       *)
 (*      enumerated in Init: holes (H1, H2), nesting to depth 4 (N), several *)
-(*      outer contours (M), combs and staircases (C).                       *)
+(*      outer contours (M), combs and staircases (C), star-shaped octagons  *)
+(*      alone and as holes / islands (Z, ZH), arbitrary contours (X).       *)
 (*  (b) OUTPUT side.  ValidTriangulation(polys, tris) is the statement of   *)
 (*      C10 clause by clause.  TLC checks on every enumerated polygon set   *)
 (*      that the generator and the independent full predicate agree         *)
@@ -34,7 +35,7 @@
 (***************************************************************************)
 EXTENDS Integers, Sequences, FiniteSets, TLC, Json
 
-CONSTANTS Family,   \* "S" | "H1" | "H2" | "N" | "M" | "C" | "X"
+CONSTANTS Family,   \* "S" | "H1" | "H2" | "N" | "M" | "C" | "Z" | "ZH" | "X"
           G,        \* family S: grid is 0..G-1 x 0..G-1 ; others: size parameter
           MaxV,     \* family S: maximal number of vertices ; others: size parameter
           Emit,     \* print the cases as JSON
@@ -289,6 +290,21 @@ FamC(n) ==
   UNION { { <<Comb(hs, f)>> : hs \in [1..m -> 1..3], f \in BOOLEAN } : m \in 1..n }
   \cup UNION { { <<Stair(rs)>> : rs \in [1..m -> 1..2] } : m \in 1..(n + 1) }
 
+(* Z: star-shaped octagons: vertex i lies k[i] steps from the centre in the    *)
+(* i-th of the 8 king's-move directions, k[i] in 1..n: 8 vertices with up to 4 *)
+(* reflex ones, collinear runs, long thin ears.  ZH: such a star (radii 1..2)  *)
+(* as a hole of a square / diamond / three times the same star (parallel       *)
+(* edges), and as an island inside a star-shaped hole                          *)
+Dirs8 == << <<1, 0>>, <<1, 1>>, <<0, 1>>, <<-1, 1>>, <<-1, 0>>, <<-1, -1>>, <<0, -1>>, <<1, -1>> >>
+Star(cx, cy, k, m) == [i \in 1..8 |-> <<cx + m * k[i] * Dirs8[i][1], cy + m * k[i] * Dirs8[i][2]>>]
+FamZ(n) == { <<Star(n, n, k, 1)>> : k \in [1..8 -> 1..n] }
+FamZH(n) ==
+  UNION { { <<Rect(0, 0, 14, 14), Rev(Star(7, 7, k, 1))>>,
+            <<Rev(Star(8, 8, k, 1)), Diamond(8, 8, 8)>>,
+            <<Star(7, 7, k, 3), Rev(Star(7, 7, k, 1))>>,
+            <<Rect(0, 0, 14, 14), Rev(Star(7, 7, k, 2)), Star(7, 7, k, 1)>>,
+            <<Rect(0, 0, 14, 14), Rev(Star(4, 4, k, 1)), Rev(Star(10, 9, k, 1))>> } : k \in [1..8 -> 1..n] }
+
 (* X: ARBITRARY finite contours (repeated points, self-intersections, zero    *)
 (* area, clockwise outers, overlapping pairs): only termination and "indices  *)
 (* are input indices" are demanded of these, unless the set happens to be     *)
@@ -301,7 +317,7 @@ FamX(n) ==
   \cup { << <<p>> >> : p \in { <<0, 0>>, <<1, 2>> } }        \* a contour of one point
   \cup { << Rect(0, 0, 2, 2), <<p>> >> : p \in { <<1, 1>>, <<3, 0>> } }
 
-Fam(f) == CASE f = "X" -> FamX(MaxV) [] f = "H1" -> FamH1(G) [] f = "H2" -> FamH2(G) [] f = "N" -> FamN(MaxV)
+Fam(f) == CASE f = "X" -> FamX(MaxV) [] f = "Z" -> FamZ(G) [] f = "ZH" -> FamZH(G) [] f = "H1" -> FamH1(G) [] f = "H2" -> FamH2(G) [] f = "N" -> FamN(MaxV)
             [] f = "M" -> FamM(G) [] f = "C" -> FamC(G)
             [] OTHER -> {}
 
